@@ -6,7 +6,9 @@ NS = "Hw.Props.C06."
 THEOREMS = [NS + t for t in """C06_callback_safe C06_attr_child_content_always_legal C06_scan_mem_safe C06_look_init_safe
 C06_backend_init_safe C06_userdata_close_content_safe C06_distances_import_bounds C06_distances_valcap_exact C06_userdata_decode_bounds
 C06_f05a_pinned_null_deref C06_f05b_pinned_underflow C06_f05e_pinned_overread C06_f05f_pinned_bare_close_content_overrun
-C06_pinned_defects_exact C06_distances_valcap_pinned_wraps""".split()]
+C06_pinned_defects_exact C06_distances_valcap_pinned_wraps
+C06_distances_refresh_links C06_distances_refresh_then_walk C06_distances_refresh_running_prev_uaf
+C06_distances_refresh_all_patterns_le5 C06_distances_refresh_all_patterns_le5_spec""".split()]
 CHECK_MODULES = ["Hw.Props.C06"]
 TRUSTED = ["libc as modelled in lean/Hw/Io/XmlScan.lean: strspn/strchr/strncmp/strcmp/strlen read byte by byte and stop at the first deciding byte; "
            "sscanf(\"<topology version=\\\"%u.%u\\\">\") takes the strlen of its input and parses with glibc's %u semantics",
@@ -18,7 +20,10 @@ ASSUMPTIONS = ["the caller's buffer has at least `size` readable bytes (API cont
                "C06_userdata_close_content_safe), close_child on the root state, close_tag on a state without tag name; no input class is excluded"]
 MODELLED = ("modelled representation-exactly (every read/write index checked): hwloc/topology-xml-nolibxml.c import side — ignore_spaces, next_attr "
             "(incl. the in-place unescaping copy), find_child, close_tag, close_child, get_content, close_content, look_init (header skipping, sscanf "
-            "case split), backend_init (buffer case); topology-xml.c: the indexes/u64values filling loops and the nbobjs gate of hwloc__xml_import_distances, the get_content/close_content/close_tag order of hwloc__xml_import_userdata, the base64 decoder's write guards.  "
+            "case split), backend_init (buffer case); topology-xml.c: the indexes/u64values filling loops and the nbobjs gate of hwloc__xml_import_distances, the get_content/close_content/close_tag order of hwloc__xml_import_userdata, the base64 decoder's write guards; distances.c: the unlink-and-free-while-iterating loop of hwloc_internal_distances_refresh "
+            "(end of every load) over the doubly linked first_dist..last_dist list, every field access checked against the freed mark "
+            "(lean/Hw/Attr/DistRefresh.lean; tied to the C by engine xmlload's distances-list class: every subset of dropped <distances2*> "
+            "elements of 1..5 on every run, surviving list compared with a document-derived oracle, links probed through the public API).  "
             "Exercised, not modelled: everything else in topology-xml.c, topology-xml-libxml.c, the diff loader, the core (engine xmlload)")
 
 
